@@ -611,6 +611,7 @@ impl Scenario for Death {
         for k in 0..3 {
             v.push(json!({"fault": "clientexception", "bound": 16, "long": k}));
         }
+        v.push(json!({"fault": "unsolicited", "bound": 16}));
         // the same ends reached through drop instead of close
         for fault in ["silence", "serverclose", "clientexception", "none"] {
             v.push(json!({"fault": fault, "bound": 16, "drop": true}));
@@ -658,6 +659,13 @@ impl Scenario for Death {
             "malformed" => broker.corrupt_frame = Some(p["frame"].as_u64().unwrap() as usize),
             "silence" => broker.silent_after_handshake = true,
             "serverclose" => broker.pushes.push(Push::new("conn-close", vec![conn_close_frame(320, "going down")]).after_frames(5)),
+            "unsolicited" => {
+                // two replies nobody asked for fill channel 1's reply queue; then the server closes
+                // the connection: whichever of the two the client names as the cause, it ends
+                let qos_ok = || AMQPFrame::Method(1, AMQPClass::Basic(amq_protocol::protocol::basic::AMQPMethod::QosOk(amq_protocol::protocol::basic::QosOk {})));
+                broker.pushes.push(Push::new("unsolicited", vec![qos_ok(), qos_ok()]).after_frames(5));
+                broker.pushes.push(Push::new("conn-close", vec![conn_close_frame(320, "going down")]).after("unsolicited"));
+            }
             "clientexception" if !p["long"].is_null() => {
                 // the offending frame's description (quoted in the client's Close) is longer than a
                 // short string and made of 2- and 3-byte characters, at every alignment
@@ -714,6 +722,7 @@ impl Scenario for Death {
             "malformed" => vec!["Err(MalformedFrame)".into()],
             "silence" | "deadpeer" => vec!["Err(MissedServerHeartbeats)".into()],
             "serverclose" if got_server_close => vec!["Err(ServerClosedConnection(320,going down))".into()],
+            "unsolicited" => vec!["Err(ServerClosedConnection(320,going down))".into(), "Err(FrameUnexpected)".into(), "Ok".into()],
             "clientexception" if got_tx => vec!["Err(ClientException)".into()],
             _ => vec!["Ok".into()],
         };
